@@ -1012,6 +1012,20 @@ fn step(w: &mut World, op: &Op, st: &mut Stats) -> Result<(), (&'static str, Str
                     }
                     return Ok(());
                 }
+                6 | 7 => {
+                    // any magnitude, down to the subnormals: non-zero values of opposite sign are never
+                    // close (6); values of the same sign are close exactly when their relative difference
+                    // is within the tolerance, whatever their scale (7)
+                    const MAGS: [f64; 10] = [1e-17, 3e-9, 1e-170, 5e-324, 1e-300, 2.2e-16, 1e-5, 7e-155, 1e-30, 4e-162];
+                    let mag = MAGS[(*k / 3) % MAGS.len()] * if *k % 2 == 0 { 1.0 } else { -1.0 };
+                    let mut base = mo.clone();
+                    base.d[kk] = mag;
+                    other.d[kk] = if *kind == 6 { -mag * if delta.0 > 0.1 { 3.0 } else { 1.0 } } else { mag * (1.0 + delta.0) };
+                    let x = Matrix::new(base.d.clone(), base.r as i32, base.c as i32);
+                    let y = Matrix::new(other.d.clone(), other.r as i32, other.c as i32);
+                    st.inc(if *kind == 6 { "cmp.opposite_sign_tiny" } else { "cmp.scaled_tiny" });
+                    return cmp_oracle(&x, &y, &base, &other, tol.0);
+                }
                 _ => {
                     // same buffer, different shape
                     other = MM { r: mo.c, c: mo.r, d: mo.d.clone() };
@@ -1040,13 +1054,26 @@ fn cmp_oracle(x: &Matrix, y: &Matrix, mx: &MM, my: &MM, tol: f64) -> Result<(), 
     }
     // close_to: relative tolerance tol (<= 1e-6 in generated cases)
     let ct = catch(|| x.close_to(y, tol)).map_err(|e| ("valid_rejected", format!("close_to panicked: {}", e)))?;
-    let opposite = same_shape && mx.d.iter().zip(&my.d).any(|(a, b)| a.abs() >= 1e-3 && b.abs() >= 1e-3 && (a.signum() != b.signum()));
+    // "never equate values of opposite sign": two non-zero values of different sign, at any magnitude
+    let opposite = same_shape && mx.d.iter().zip(&my.d).any(|(a, b)| *a != 0.0 && *b != 0.0 && !a.is_nan() && !b.is_nan() && ((*a < 0.0) != (*b < 0.0)));
+    // relative difference of two non-zero finite values of the same sign (the documented notion of
+    // "close within a tolerance"; with a zero involved the comparison is absolute and is only decided
+    // by the around-zero cases of CmpPerturbed)
+    let rd = |a: f64, b: f64| -> Option<f64> {
+        if a != 0.0 && b != 0.0 && a.is_finite() && b.is_finite() && ((a < 0.0) == (b < 0.0)) {
+            Some(((a.abs() - b.abs()).abs()) / a.abs().min(b.abs()))
+        } else {
+            None
+        }
+    };
     let clearly_far = !same_shape || mx.d.iter().zip(&my.d).any(|(a, b)| {
         let m = a.abs().min(b.abs());
-        (a.abs() >= 1e-3 || b.abs() >= 1e-3) && (a - b).abs() > 100.0 * tol * m.max(1e-3) && (a - b).abs() > 100.0 * tol * a.abs().max(b.abs())
+        ((a.abs() >= 1e-3 || b.abs() >= 1e-3) && (a - b).abs() > 100.0 * tol * m.max(1e-3) && (a - b).abs() > 100.0 * tol * a.abs().max(b.abs()))
+            || rd(*a, *b).map_or(false, |d| d > 4.0 * tol)
     });
-    if identical && !ct {
-        return Err(("comparison_wrong", format!("close_to(tol {:e}) is false for two identical matrices", tol)));
+    let clearly_close = same_shape && mx.d.iter().zip(&my.d).all(|(a, b)| a.to_bits() == b.to_bits() || (*a == *b && a.is_finite()) || rd(*a, *b).map_or(false, |d| d <= tol / 4.0));
+    if (identical || clearly_close) && !ct {
+        return Err(("comparison_wrong", format!("close_to(tol {:e}) is false for two matrices whose elements are pairwise identical or within a quarter of the tolerance", tol)));
     }
     if opposite && ct {
         return Err(("comparison_wrong_sign", format!("close_to(tol {:e}) equates values of opposite sign", tol)));
@@ -1058,7 +1085,7 @@ fn cmp_oracle(x: &Matrix, y: &Matrix, mx: &MM, my: &MM, tol: f64) -> Result<(), 
         let (vx, vy) = (x.data.clone(), y.data.clone());
         let vct = catch(|| vx.close_to(&vy, tol)).map_err(|e| ("valid_rejected", format!("Vector::close_to panicked: {}", e)))?;
         let veq = catch(|| vx == vy).map_err(|e| ("valid_rejected", format!("Vector == panicked: {}", e)))?;
-        if (identical && !vct) || (opposite && vct) || (identical && !veq) || (clearly_diff && veq) {
+        if ((identical || clearly_close) && !vct) || ((opposite || clearly_far) && vct) || (identical && !veq) || (clearly_diff && veq) {
             return Err((if opposite && vct { "comparison_wrong_sign" } else { "comparison_wrong" }, format!("Vector comparison: close_to = {}, == = {} (identical {}, opposite-sign {}, clearly different {})", vct, veq, identical, opposite, clearly_diff)));
         }
     }
@@ -1365,7 +1392,7 @@ fn gen_op(r: &mut Sm, tr: &Tracker, weights: &[u32; 6], p_fault: f64, special: b
         _ => match r.below(4) {
             0 => Op::Predicates { m },
             1 => Op::EqClose { a: m, b: r.below(tr.ms.len().max(1) as u64) as usize, tol: Fb(*r.pick(&[1e-6, 1e-9, 1e-12])) },
-            _ => Op::CmpPerturbed { m, kind: r.below(6) as u8, k: r.usize(0, 63), delta: Fb(*r.pick(&[1e-3, 1e-2, 0.5, -1e-3, 1e-13])), tol: Fb(*r.pick(&[1e-6, 1e-9])) },
+            _ => Op::CmpPerturbed { m, kind: r.below(8) as u8, k: r.usize(0, 63), delta: Fb(*r.pick(&[1e-3, 1e-2, 0.5, -1e-3, 1e-13])), tol: Fb(*r.pick(&[1e-6, 1e-9])) },
         },
     }
 }
